@@ -173,12 +173,15 @@ def c01(tier, seed):
         r = replay("C01", t, seed, 2)
         t2 = session("c01-honest-ring", PskMode="single", PubLens=[32], Variants=["tr"])
         r2 = replay("C01", t2, seed, 1, backends="mix-sample")
+        t3, r3 = odd_names_leg("C01", tier, seed)
     else:
         t = session("c01-honest", PskMode="all", Profiles=["small", "zero"])
         r = replay("C01", t, seed, 0, threads=14)
         t2 = session("c01-honest-ring", PskMode="all", PubLens=[32])
         r2 = replay("C01", t2, seed, 2, backends="mix", threads=14)
-    return merge("model_checking", [t, t2], [r, r2], RULE_D1 +
+        t3, r3 = odd_names_leg("C01", tier, seed)
+    return merge("model_checking", [t, t2, t3], [r, r2, r3], RULE_D1 +
+                 "a third run names the protocol with a non-canonical spelling of its psk numerals (the verbatim name is hashed); "
                  "a second run assigns ring-backed resolvers to the endpoints (fallback(ring,default), fallback(default,ring), "
                  "default in every mix), since a conforming endpoint must interoperate whatever its backend; "
                  "here: honest sessions, one symbolic transcript per (pattern, psk set, public-key length, pad/hash init "
@@ -586,6 +589,16 @@ def c12(tier, seed):
     return res
 
 
+def odd_names_leg(prop, tier, seed):
+    """Sessions whose protocol name spells its psk numerals with a leading zero (psk03): the verbatim string is what
+    must be hashed (C13), and the transcript must still be the specification's for THAT string (C01)."""
+    t = session(f"{prop.lower()}-oddnames", OddNames=True, PskMode="only" if tier == "quick" else "all", PubLens=[32],
+                InitPads=[True], Variants=["tr"], TrafficMode="short",
+                PatSet=(["N", "NN", "XX", "IK", "X1X1", "KK"] if tier == "quick" else BASE))
+    r = replay(prop, t, seed, 1)
+    return t, r
+
+
 def c13(tier, seed):
     names = name_table()
     d = os.path.join(WORK, "c13-names")
@@ -623,6 +636,14 @@ def c13(tier, seed):
                     "verbatim name, error class) record with ParseName of spec/NoiseNames.tla; distinct_nontrivial = strings "
                     "that must be rejected", exhaustive=False)
     os.remove(nd)
+    to, ro = odd_names_leg("C13", tier, seed)
+    viol += ro["violations"]
+    cov["states"] += to["distinct"]
+    cov["transitions"] += to["states"]
+    cov["traces_validated_against_impl"] += ro["instances"]
+    cov["odd_spelling_sessions"] = ro["instances"]
+    cov["rule"] += ("; plus honest sessions whose name spells the psk numerals with a leading zero (psk03): the verbatim "
+                    "string is what is hashed, so every byte must be the specification's for that string")
     return dict(level="model_checking", coverage=cov, violations=viol,
                 assumptions=["the grammar in spec/NoiseNames.tla is the Noise rev 34 section 8 grammar plus snow's documented "
                              "P256/XChaChaPoly/448 names; psk numerals up to 255 with leading zeros are accepted (the "
@@ -678,7 +699,13 @@ def c08(tier, seed):
         t2 = session("c08-overwrite", OverwritePsk=True, PskMode="only", PubLens=[32], InitPads=[False], Variants=["tr"],
                      TrafficMode="short", PatSet=["NN", "XX", "IK", "N", "X1X1", "K1K", "KX", "NK1"])
         r2 = replay("C08", t2, seed, 1, threads=14)
+        t3 = session("c08-missing-psk", PskMode="only", LatePsk=True, PubLens=[32], InitPads=[False], Variants=["tr"],
+                     TrafficMode="short", PatSet=["NN", "XX", "IK", "N", "X1X1", "KX"])
+        r3 = replay("C08", t3, seed, 1, threads=14)
     else:
+        t3 = session("c08-missing-psk", PskMode="only", LatePsk=True, PubLens=[32], InitPads=[False], Variants=["tr"],
+                     TrafficMode="short")
+        r3 = replay("C08", t3, seed, 1, threads=14)
         t = session("c08-mismatch", Mismatches=MM_ALL + ["none"], PskMode="all", Variants=["tr", "sl"], TrafficMode="short")
         r = replay("C08", t, seed, 2, threads=14)
         t2 = session("c08-overwrite", OverwritePsk=True, PskMode="only", PubLens=[32], InitPads=[False], Variants=["tr"],
@@ -699,16 +726,19 @@ def c08(tier, seed):
 def c19(tier, seed):
     kinds = ["ralt", "rtrunc", "rleak"]
     if tier == "quick":
-        t1 = session("c19-hs", FaultBudget=1, FaultKinds=kinds, Profiles=["mid"], PskMode="single", PubLens=[32],
+        t1 = session("c19-hs", FaultBudget=1, FaultKinds=kinds, Profiles=["mid", "kilo"], PskMode="single", PubLens=[32],
                      InitPads=[False], Variants=["tr"], TrafficMode="short",
                      PatSet=["NN", "XX", "IK", "X", "NK", "KK", "IX", "XK1", "X1X1", "K1X"])
         cfgs = [("c19-tr", dict(MaxSend=1, Depth=3, BadBudget=2, SetBudget=0, SmallBufs=True)),
+                ("c19-tr-big", dict(MaxSend=0, Depth=2, BadBudget=1, SetBudget=0, SmallBufs=False, BigBudget=1)),
                 ("c19-sl", dict(Stateful=False, MaxSend=1, Depth=2, BadBudget=1, SetBudget=0, SmallBufs=True))]
         bk = "mix-sample"
     else:
-        t1 = session("c19-hs", FaultBudget=1, FaultKinds=kinds, Profiles=["mid", "zero"], PskMode="single",
+        t1 = session("c19-hs", FaultBudget=1, FaultKinds=kinds, Profiles=["mid", "zero", "kilo"], PskMode="single",
                      InitPads=[False], Variants=["tr"], TrafficMode="short")
         cfgs = [("c19-tr", dict(MaxSend=2, Depth=4, BadBudget=2, SetBudget=0, SmallBufs=True)),
+                ("c19-tr-big", dict(MaxSend=1, Depth=3, BadBudget=1, SetBudget=0, SmallBufs=False, BigBudget=1)),
+                ("c19-sl-big", dict(Stateful=False, MaxSend=0, Depth=2, BadBudget=1, SetBudget=0, SmallBufs=False, BigBudget=1)),
                 ("c19-sl", dict(Stateful=False, MaxSend=2, Depth=4, BadBudget=2, SetBudget=0, SmallBufs=True))]
         bk = "mix"
     # default backend for every cipher (incl. XChaChaPoly, BLAKE2), then ring-backed assignments
